@@ -202,4 +202,33 @@ fn c15_collapse(directed: bool, multi: bool, s: u8) {
     core::mem::forget(sh);
 }
 
+/// reverse on the smallest graph with a reciprocal pair of different weights.
+fn c15_reverse_reciprocal(multi: bool) {
+    let (w1, w2) = (any_f64(), any_f64());
+    let nodes: Vec<(u8, Option<u8>)> = vec![(2, None), (0, Some(any_u8()))];
+    let edges: Vec<(u8, u8, f64)> = vec![(2, 0, w1), (0, 2, w2)];
+    let g = build_direct(permissive(true, multi), &nodes, &edges);
+    let r = g.reverse();
+    vassert!(r.is_ok(), "reverse succeeds on directed graphs");
+    let rg = r.as_ref().unwrap();
+    let got = alpha(rg);
+    let mut want = RefGraph::empty();
+    want.add_node(2, None);
+    want.add_node(0, nodes[1].1);
+    want.eu[0] = 0;
+    want.ev[0] = 2;
+    want.ew[0] = w1;
+    want.eu[1] = 2;
+    want.ev[1] = 0;
+    want.ew[1] = w2;
+    want.m = 2;
+    vassert!(got.same_as(&want, true), "reverse flips every edge keeping nodes, weights and parallel edges");
+    vassert!(pair_coherent(rg, &got, 2, 0) && pair_coherent(rg, &got, 0, 2), "the reversed graph's indexes are coherent");
+    vcover!(w1 != w2, "different weights");
+    core::mem::forget(r);
+    core::mem::forget(g);
+}
+crate::vharness! { unwind = 9; fn c15_rev_reciprocal_ds() { c15_reverse_reciprocal(false) } }
+crate::vharness! { unwind = 9; fn c15_rev_reciprocal_dm() { c15_reverse_reciprocal(true) } }
+
 include!("gen_convert_ac.rs");
